@@ -202,6 +202,18 @@ WITNESS_OPEN_AFTER_CLOSE = {
     "ops": [["start", "A"], ["start", "B"], ["deliver", "B", 0], ["deliver", "A", 0], ["deliver", "B", 0], ["deliver", "A", 0],
             ["create", "B", {"id": 22, "label": "id", "ordered": True}], ["task", "B"], ["drop", "A", 0], ["close", "B", 0]],
 }
+# the lost DATA_CHANNEL_OPEN carries TSN 0 while the peer's cumulative TSN is still 2^32-1: the stream-reset request
+# ("last assigned TSN" 0) has to be compared in serial arithmetic
+WITNESS_RESET_ACROSS_WRAP = {
+    "tagA": 21, "tagB": 22, "tsnA": 4294967295, "tsnB": 0, "profile": "life2", "wrap": True,
+    "ops": [["start", "A"], ["start", "B"], ["deliver", "B", 0], ["deliver", "A", 0], ["deliver", "B", 0], ["deliver", "A", 0],
+            ["create", "B", {"id": 22, "label": "id", "ordered": True}], ["task", "B"], ["drop", "A", 0], ["close", "B", 0]],
+}
+WITNESS_RESET_ACROSS_WRAP_A = {
+    "tagA": 23, "tagB": 24, "tsnA": 0, "tsnB": 4294967295, "profile": "life2", "wrap": True,
+    "ops": [["start", "A"], ["start", "B"], ["deliver", "B", 0], ["deliver", "A", 0], ["deliver", "B", 0], ["deliver", "A", 0],
+            ["create", "A", {"label": "auto", "ordered": True}], ["task", "A"], ["drop", "B", 0], ["close", "A", 0]],
+}
 # a duplicated COOKIE ECHO reaches the server while a negotiated channel is closing (fix 4ffefd0)
 WITNESS_COOKIE_DUP = {
     "tagA": 11, "tagB": 12, "tsnA": 500, "tsnB": 600, "profile": "life2", "wrap": False,
@@ -551,7 +563,8 @@ class World(S.WorldComponent):
     oracles = [S.oracle_no_crash, oracle_c13_local, oracle_c13_extra, S.oracle_c01, S.oracle_c06]
 
     def corpus(self):
-        return ([WITNESS_NEGOTIATED, WITNESS_OPEN_AFTER_CLOSE, WITNESS_EARLY_STOP, WITNESS_THRESHOLD, WITNESS_COOKIE_DUP]
+        return ([WITNESS_NEGOTIATED, WITNESS_OPEN_AFTER_CLOSE, WITNESS_EARLY_STOP, WITNESS_THRESHOLD, WITNESS_COOKIE_DUP,
+                 WITNESS_RESET_ACROSS_WRAP, WITNESS_RESET_ACROSS_WRAP_A]
                 + super().corpus() + directed_lifecycle_cases())
 
     def cases(self, rng, tier):
